@@ -69,9 +69,11 @@ func runStreamHistories(c *Ctx, name string, n int, maker string, nontrivial fun
 				c.Count("out:" + o.Kind)
 			}
 		}
+		nv := len(c.Res.Violations)
 		for _, m := range mons {
 			m(c, h)
 		}
+		c.minimise(h, nv, mons)
 		cases = append(cases, h.caseTerm())
 		reps = append(reps, J(map[string]interface{}{"kind": name, "maker": maker, "seed": seeds[i], "cfg": h.Cfg, "initial_store": h.Initial, "ops": h.Ops, "observed": h.Outs, "final": h.Digest}))
 		if len(got) <= 2 {
@@ -169,4 +171,31 @@ func init() {
 func runScore(c *Ctx) {
 	c.Res.Rule = "random histories of the stream core (debug scenario)"
 	runStreamHistories(c, "score", c.Pick(200, 2000), "score", nil, ignoredMonitor)
+}
+
+// minimise shrinks the history of the first violation of each class reported since index from (at most two classes per
+// run, 30 re-executions each): the replay gets a "minimised" entry.
+func (c *Ctx) minimise(h *SHistory, from int, mons []StreamMonitor) {
+	if c.shrunk == nil {
+		c.shrunk = map[string]bool{}
+	}
+	for k := from; k < len(c.Res.Violations); k++ {
+		v := &c.Res.Violations[k]
+		if c.shrunk[v.Class] || len(c.shrunk) >= 2 || v.Class == "harness" || v.Class == "process-crash" ||
+			strings.Contains(","+os.Getenv("VERIF_KNOWN_CLASSES")+",", ","+v.Class+",") {
+			continue
+		}
+		c.shrunk[v.Class] = true
+		m, runs := shrinkHistory(h, v.Class, mons, 30)
+		if rep, ok := v.Replay.(map[string]interface{}); ok {
+			if m != nil {
+				rep["minimised"] = map[string]interface{}{"ops": m.Ops, "observed": m.Outs, "re_executions": runs}
+			} else {
+				rep["minimised"] = fmt.Sprintf("no shorter history reproduces it (%d re-executions)", runs)
+			}
+		}
+	}
+	if len(c.Res.Violations) > from {
+		c.Finish()
+	}
 }
